@@ -371,6 +371,28 @@ def rule_registry_reset(ctx):
             ctx.ob(R, wf, wn, wf.qualname == f"{TXN}.consumer_group_added", f"{wf.qualname} sets the registered group", text="group-set")
     if n < 6:
         raise AnalysisError(f"registry-reset: {n} writers found (floor 6)")
+    # the registry is also WRITTEN when the coordinator acknowledged a registration, and the emptiness shortcut reads exactly it
+    fpa = ctx.fn(f"{TXN}.partition_added")
+    adds = [x for x in ctx.cfg(fpa).calls(attr="add") if unparse(x.ast.func.value) == "self._txn_partitions"]
+    ctx.ob(R, fpa, fpa.node, len(adds) == 1 and unparse(arg_of(adds[0].ast, 0)) == fpa.params()[1], "partition_added does not record the acknowledged partition", text="partition-recorded")
+    fga = ctx.fn(f"{TXN}.consumer_group_added")
+    sets = [x for x in ctx.cfg(fga).stores(attr="_txn_consumer_group")]
+    ctx.ob(R, fga, fga.node, len(sets) == 1 and isinstance(sets[0].stmt, ast.Assign) and unparse(sets[0].stmt.value) == fga.params()[1] and ctx.cfg(fga).dominates(sets[0], ctx.cfg(fga).exit) is not False
+           and ctx.cfg(fga).exit not in ctx.cfg(fga).reachable([ctx.cfg(fga).entry], avoid=set(sets), exc=False),
+           "consumer_group_added does not record the acknowledged group on every path: an offsets-only transaction looks empty and its EndTxn is skipped", text="group-recorded")
+    from .. import finite
+    fe = ctx.fn(f"{TXN}.is_empty_transaction")
+    got = {}
+    for parts in ((), ("tp",)):
+        for grp in (None, "g"):
+            env = {"self.txn_partitions": list(parts), "self._txn_partitions": list(parts), "self._txn_consumer_group": grp, "__calls__": {"len": len}}
+            try:
+                finite.run(fe.node.body, env, set())
+                got[(bool(parts), grp is not None)] = None
+            except finite._Return as r_:
+                got[(bool(parts), grp is not None)] = bool(r_.v)
+    ctx.ob(R, fe, fe.node, got == {(False, False): True, (False, True): False, (True, False): False, (True, True): False},
+           f"is_empty_transaction gives {got} over (partitions registered, group registered): it must be true exactly when neither is", text="empty-iff-nothing-registered")
     fc = ctx.fn(f"{TXN}.complete_transaction")
     cc = ctx.cfg(fc)
     ctx.ob(R, fc, fc.node, any(unparse(x.ast.func.value) == "self._txn_partitions" for x in cc.calls(attr="clear")) and
